@@ -7,6 +7,7 @@ from . import rules_guard as RG
 from . import rules_ord as RO
 from . import rules_ua as RU
 from . import rules_eo as RE
+from . import rules_must as RM
 
 ASSUMPTIONS = [
     "rustc's MIR construction, type checking and callee resolution (facts are read from the compiler's own built MIR)",
@@ -97,7 +98,7 @@ G_CORE = [(RP.tok_exec, None), (RP.tok_leak, None), (RP.tok_resched, None), (RP.
           (RL.try_rule, None), (RL.lo, None), (RL.bl, None),
           (RO.c03_dormant, None), (RO.c10_fetch, None), (RO.c10_thread, None), (RO.c10_spawn, None), (RO.c02_append, None), (RO.c06_drain, None),
           (RO.c07_own, None), (RO.c07_signal, None), (RO.c08, None, ['result-after-scheduler', 'polls-with-callers-context', 'drop-order']),
-          (RO.free_delegates, None), (RO.rs_strength, None, ['SchedulerCore']), (RW.lw_owner, None), (RU.ua_leak, None),
+          (RO.free_delegates, None), (RO.rs_strength, None, ['SchedulerCore']), (RW.lw_owner, None), (RU.ua_leak, None), (RM.must, None),
           (RE.eo, None, ['^SchedulerCore::', '^<SchedulerCore::', '^JobQueue::', '^<JobQueue::', '^Scheduler::', '^<Scheduler::', '^<WakeQueue', '^<WakeThread', '^<SchedulerFuture', '^SchedulerFuture', '^<ActiveQueue', '^<UnsafeJob', '^FutureJob::', '^SchedulerThread::'])]
 G_ORDER = [(RO.c02_append, None), (RO.free_delegates, None, ['|delegates']), (RQ.qd_queue, None), (RP.tr_immediate, None), (RP.tr_sibling, None, ['sync']), (RP.tok_requeue, None),
            (RP.pa_rules, {'PA-excl', 'PA'}), (RP.tok_exec, None)]
@@ -237,4 +238,4 @@ prop('C17', COMMON +
      'OS threads are created in one place, called only from those functions; despawn pops while len > max under the lock and joins outside it (BL).',
      ['spawn only under `len < max` in one critical section (ORD-C17)', 'single creation site; despawn shape (ORD-C17)', 'join outside the lock (BL)'],
      ["maximum changes racing with spawns (excluded by the property's own quantifier)"],
-     [(RO.c17, None), (RL.bl, None), (RO.c10_spawn, None), (RE.eo, None, ['^Scheduler::despawn_threads_if_overloaded', '^<Scheduler::despawn_threads_if_overloaded', '^SchedulerCore::remove_finished_threads', '^<SchedulerCore::remove_finished_threads'])])
+     [(RO.c17, None), (RL.bl, None), (RO.c10_spawn, None), (RM.must, None, ['thread-created-is-registered', 'joins-what-it-removed']), (RE.eo, None, ['^Scheduler::despawn_threads_if_overloaded', '^<Scheduler::despawn_threads_if_overloaded', '^SchedulerCore::remove_finished_threads', '^<SchedulerCore::remove_finished_threads'])])
